@@ -209,6 +209,18 @@ CHECKS["C06"] = dict(
          "SQLAlchemy's semantics and is decided by the bounded driver (30 / 1500 generated models x 2 orders, + determinism by text equality).",
     note="Assumed: field classification (C17), the jinja template prints the records verbatim, SQLAlchemy / black / jinja2, deterministic topological sort.",
 )
+CHECKS["C07"] = dict(
+    category="other",
+    technique="contract-based deductive verification of the translation's structure and rejection half (real ast of eql_interface.py executed over a symbolic SQL-expression algebra; the expression vocabulary enumerated from the real class hierarchy) + bounded in-memory vs SQLite equivalence driver",
+    text="translate_query sends AND / OR / Comparator / Attribute (and their subclasses) to their translators and rejects EVERY other expression class of the "
+         "language with UnsupportedQueryTypeError; translate_and / translate_or build the SQL and / or of both operands; == > < >= <= map to the same SQL "
+         "comparison, != to IS DISTINCT FROM, unknown operators are rejected; an attribute chain from a variable that is neither selected nor joined, a type "
+         "without DAO, an untyped leaf, a scalar in the middle of a chain and an unknown column are rejected; the(...) demands exactly one row, an(...) "
+         "all rows, other quantifiers are rejected; translate selects the DAO of the selected type filtered by the translated condition; every raise of "
+         "the module is an EQLTranslationError and no handler swallows arbitrary exceptions. Level 'other': what an accepted statement MEANS on the "
+         "database is SQLAlchemy / SQLite semantics - decided only by the bounded driver (44 query shapes x an/the x 3 / 40 random databases).",
+    note="Assumed: SQLAlchemy operators mean what they say on SQLite; get_dao_class; DAO columns carry the field values (C04 / C06).",
+)
 NOT_APPLICABLE = {
     "C05": "decided by SQLAlchemy/SQLite semantics acting on generated code; no krrood function body carries it, so no contract within reach can express it (DESIGN.md §4)",
 }
